@@ -257,6 +257,11 @@ impl<'a, 'b: 'a, R: Read> RowParser<'a, 'b, R> {
                 break;
             }
 
+            // End of input inside a row, the row is unterminated
+            if self.parser.lexer.cur.value.is_none() {
+                break;
+            }
+
             let val = self.parser.parse_value()?;
             dict.insert(cols[col_num].name.clone(), val);
 
